@@ -400,7 +400,14 @@ func intrinsicTable0() map[string]func(ex *Exec, f *Frame, call *ssa.Call, args 
 			return nil, reach
 		},
 		"verifBytesEq": func(ex *Exec, f *Frame, call *ssa.Call, args []Value, reach *Term) (Value, *Term) {
-			return ex.contentEq(args[0].(SliceV), args[1].(SliceV)), reach
+			a, b := args[0].(SliceV), args[1].(SliceV)
+			if ex.bytesEqHook != nil {
+				// Bytes layer: equality of the two values (its extensionality instance gives
+				// the differing index as a witness with both sides under bat(.,.), which is
+				// what the definitions of the values trigger on)
+				return And(Eq(a.Len, b.Len), ex.bytesEqHook(a, b)), reach
+			}
+			return ex.contentEq(a, b), reach
 		},
 		"verifSameSlice": func(ex *Exec, f *Frame, call *ssa.Call, args []Value, reach *Term) (Value, *Term) {
 			a, b := args[0].(SliceV), args[1].(SliceV)
